@@ -233,10 +233,10 @@ Definition v2_parse (buf : bytes) : outcome :=
         else
           match v2_addresses family raw with
           | None => Reject E_must
-          | Some (s, sp, d, dp, left) =>
+          | Some (s, sp, d, dp, lo) =>
             let h1 := header_set_addrs h s sp d dp in
             if has_forwarded_addresses h1 then
-              match parse_tlvs left with
+              match parse_tlvs lo with
               | TOk t => Ok (header_set_tlvs h1 t) size
               | TFail => Reject E_must
               | TFuel => Reject E_fuel
@@ -306,7 +306,7 @@ Definition v1_extract_port (trailingSpace : bool) (t : bytes) : err + (N * bytes
       | (false, _) => inl E1_port_garbage
       | (true, r2) =>
           if (port >? 65535)%Z then inl E1_port_invalid
-          else inr (Z.to_N (port mod 65536), r2)          (* static_cast<uint16_t>(port) *)
+          else inr (Z.to_N (port mod 65536)%Z, r2)          (* static_cast<uint16_t>(port) *)
       end
   end.
 
